@@ -144,6 +144,8 @@ inductive PC where
   | start
   | checking                -- holds the mutex, at the top of the loop body
   | parked                  -- inside `cv.wait_timeout`, mutex released
+  | preparking              -- only when check-and-park is NOT one critical section: the guard was
+                            -- dropped after the tests, the waiter is about to re-lock and wait
   | woken                   -- left the wait, has to re-acquire the mutex
   | returned (r : Ret)
   deriving DecidableEq, Repr
@@ -207,7 +209,15 @@ structure Cfg where
   tbl : NotifyTable
   creditLoop : List WStep
   reconnectLoop : List WStep
+  /-- the mutex is held continuously from the tests to `wait_timeout` (one `.lock()` before the loop,
+  the guard handed to the wait); `false` = the loop re-locks / drops the guard in between -/
+  creditAtomic : Bool
+  reconnectAtomic : Bool
   deriving DecidableEq, Repr
+
+def Cfg.atomicOf (c : Cfg) : Kind → Bool
+  | .credit _ => c.creditAtomic
+  | .reconnect => c.reconnectAtomic
 
 def Cfg.loopOf (c : Cfg) : Kind → List WStep
   | .credit _ => c.creditLoop
@@ -236,11 +246,12 @@ def Ev.isWaiter : Ev → Bool
 def step (c : Cfg) (k : Kind) (st : St) : Ev → St
   | .lock =>
     if (st.pc = .start ∨ st.pc = .woken) ∧ st.locked = false then { st with pc := .checking, locked := true }
+    else if st.pc = .preparking ∧ st.locked = false then { st with pc := .parked }   -- re-lock; wait releases it
     else st
   | .check e =>
     if st.pc = .checking then
       match runBody k e (c.loopOf k) st.sh with
-      | some (sh', pc') => ⟨sh', pc', false⟩
+      | some (sh', pc') => ⟨sh', if pc' = .parked ∧ c.atomicOf k = false then .preparking else pc', false⟩
       | none => st
     else st
   | .wake => if st.pc = .parked then { st with pc := .woken } else st
